@@ -296,3 +296,23 @@ pub fn normalise_msg(m: &str) -> String {
     }
     out
 }
+
+/// `//// FILE <relative path>` starts another file of a project (the first part is main.gom):
+/// write the files under a fresh directory and give back main.gom's path and text
+pub fn materialize_text(ctx: &mut crate::drive::Ctx, text: &str) -> (std::path::PathBuf, String) {
+    if !text.contains("//// FILE ") {
+        return (ctx.scratch.single_path(), text.to_string());
+    }
+    let root = ctx.scratch.fresh_dir("multi");
+    let mut parts = text.split("//// FILE ");
+    let main_text = parts.next().unwrap_or("").to_string();
+    for part in parts {
+        let (rel, body) = part.split_once('\n').unwrap_or((part, ""));
+        let p = root.join(rel.trim());
+        std::fs::create_dir_all(p.parent().unwrap()).ok();
+        std::fs::write(&p, body).ok();
+    }
+    let mp = root.join("main.gom");
+    std::fs::write(&mp, &main_text).ok();
+    (mp, main_text)
+}
